@@ -1006,7 +1006,7 @@ def run(ctx):
                     raise Vacuity(f"index_{fn} on rank {r} {k}: box modes {sorted(have)}")
         if not any(f[0] == fn and not f[5] for f in index_forms):
             raise Vacuity(f"index_{fn}: argument positions never permuted")
-    if not high_first or 10 * entries_comparable < 9 * entries_total:
+    if not high_first or 4 * entries_comparable < 3 * entries_total:
         raise Vacuity(f"operand shapes: {high_first} cases with the higher-dimensional operand first, "
                       f"{entries_comparable} of {entries_total} entries specified and defined")
     ctx.cov["rule"] = "a case is non-trivial when it is periodic with a non-zero wrap, a rotation other than the identity, a molecule shifted across a box face, operands of different dimensionality, or an index call that is periodic or permutes the argument positions"
